@@ -128,7 +128,7 @@ def stdin_sweep(tools, W, spec, tier):
         clean = scen.run()
         calls = clean.calls()
         for k, c in enumerate(calls):
-            for e in ws.ERRNOS.get(c['name'], ['EIO'])[: (1 if tier == 'quick' else 9)]:
+            for e in ws.errnos(c['name'], tier, quick_n=1):
                 scen.reset()
                 r = scen.run(fail='%d:%s' % (k, e))
                 fired = any(t.get('fault') for t in r.trace if t['kind'] == 'call')
@@ -147,7 +147,8 @@ def stdin_sweep(tools, W, spec, tier):
                         probs.append('exit status 1 without a reject rule')
                 elif r.status != 75:
                     probs.append('exit status %r (must be 0, 1 or 75)' % (r.status,))
-                if fired and e not in ('short', 'shorthalf') and r.status == 0 and c['name'] not in ('close', 'closedir', 'fclose') and not cleanup:
+                if (fired and e not in ('short', 'shorthalf') and not ws.may_retry(c['name'], e) and r.status == 0
+                        and c['name'] not in ('close', 'closedir', 'fclose') and not cleanup):
                     probs.append('an I/O failure at %s and exit status 0' % c['name'])
                 left = ws.tmp_entries(r.final)
                 if left and not cleanup:
@@ -201,7 +202,7 @@ def run(rep):
                 'rule, undecodable base64 under a body rule, MIME nested too deep under an attachment rule, missing destination, failing exec, '
                 'failing interpolation) with probability 0.4, plus a second maildir: exit status 1 iff a defective message is present, the good '
                 'messages end where the run without the defective ones puts them, defective ones untouched, the second maildir processed; '
-                'call-by-call conformance with Model.mainP; %d single-fault runs of the 5 stdin scenarios judged by the MDA contract (75 / 1 / '
+                'call-by-call conformance with Model.mainP; %d single-fault runs (read/write: also EINTR) of the 5 stdin scenarios judged by the MDA contract (75 / 1 / '
                 '0 only if stored intact or discarded, spool removed); non-trivial = runs that ended with an error status' % (npop, len(sres)),
         'samples': results[:2] + sres[:2],
         'kinds_exercised': kinds,
